@@ -607,6 +607,22 @@ func (e *execEngine) buildTx(n *node, t []string) (pb.Transaction, bool, error) 
 			}
 			ibtp.Group = g
 		}
+		if len(t) >= 10 {
+			// the Extra field: what a BitXHub puts there when it hands an IBTP back to the hub of its source (a BxhProof naming
+			// the status the transaction has over there: the "notice" of C04), or bytes that are no BxhProof at all
+			switch t[9] {
+			case "x:bf":
+				ibtp.Extra, _ = (&pb.BxhProof{TxStatus: pb.TransactionStatus_BEGIN_FAILURE}).Marshal()
+			case "x:br":
+				ibtp.Extra, _ = (&pb.BxhProof{TxStatus: pb.TransactionStatus_BEGIN_ROLLBACK}).Marshal()
+			case "x:ok":
+				ibtp.Extra, _ = (&pb.BxhProof{TxStatus: pb.TransactionStatus_SUCCESS}).Marshal()
+			case "x:junk":
+				ibtp.Extra = []byte{0xff, 0xff, 0xff}
+			default:
+				return nil, false, fmt.Errorf("bad extra")
+			}
+		}
 		var proof []byte
 		switch t[8] {
 		case "ok":
